@@ -78,6 +78,16 @@ def main():
     for linux_name, goarch in [("riscv64", "riscv64"), ("loongarch64", "loong64"), ("ppc64", "ppc64"), ("ppc64le", "ppc64le"), ("s390x", "s390x"),
                                ("mips", "mips"), ("mipsel", "mipsle"), ("mips64", "mips64"), ("mipsel64", "mips64le"), ("ppc", "ppc"), ("sparc64", "sparc64")]:
         tables[linux_name] = [("xsys", XSYS + "/zsysnum_linux_%s.go" % goarch, go_sysnum), ("goroot", GOROOT + "/zsysnum_linux_%s.go" % goarch, go_sysnum)]
+    # newer releases of x/sys that are present offline (dependencies of the analysis tooling): they list syscalls added to
+    # the kernel after the version the library pins
+    for ver in ("v0.29.0", "v0.48.0"):
+        newer = "/root/go/pkg/mod/golang.org/x/sys@%s/unix" % ver
+        if not os.path.isdir(newer):
+            continue
+        for abi, goarch in [("x86_64", "amd64"), ("i386", "386"), ("arm", "arm"), ("aarch64", "arm64"), ("riscv64", "riscv64"),
+                            ("loongarch64", "loong64"), ("ppc64", "ppc64"), ("ppc64le", "ppc64le"), ("s390x", "s390x"), ("mips", "mips"),
+                            ("mipsel", "mipsle"), ("mips64", "mips64"), ("mipsel64", "mips64le"), ("ppc", "ppc"), ("sparc64", "sparc64")]:
+            tables[abi].append(("xsys-" + ver, newer + "/zsysnum_linux_%s.go" % goarch, go_sysnum))
     for abi, srcs in tables.items():
         o["syscalls"][abi] = {}
         for name, path, fn in srcs:
@@ -86,6 +96,14 @@ def main():
                 continue
             o["syscalls"][abi][name] = t
             o["sources"][abi + "/" + name] = path
+    # x32: since Linux 5.1 new syscalls get one number for all x86-64 ABIs (arch/x86/entry/syscalls/syscall_64.tbl: entries
+    # 424..511 are "common"; 512..547 are the x32-specific ones), so the newest x86_64 source is a source for that range
+    for src in sorted(o["syscalls"].get("x86_64", {})):
+        if src.startswith("xsys-"):
+            common = {n: v for n, v in o["syscalls"]["x86_64"][src].items() if 424 <= v < 512}
+            if common:
+                o["syscalls"]["x32"]["common-" + src] = common
+                o["sources"]["x32/common-" + src] = o["sources"]["x86_64/" + src] + " (numbers 424..511 are common to x86_64 and x32)"
     # UAPI constants
     env = {}
     for h in ["linux/seccomp.h", "linux/prctl.h", "asm-generic/errno-base.h", "asm-generic/errno.h", "linux/elf-em.h", "linux/audit.h",
